@@ -1194,9 +1194,6 @@ func confMarkedKind(kind string) bool { return kind == "triMarked" || kind == "f
 // explicit_nonzero_kept, C19_explicit_kept_partial; the full statement in strict mode) and
 // absent => inherited (absent_inherits). prev == nil: nothing to inherit from.
 func (e *confExec) checkStruct(where, structName string, fs []confField, o confOpts, eff, prev *confDumpStruct, first bool) {
-	inc, _ := o.get("include")
-	ign, _ := o.get("ignore")
-	listsWritten := structName == "src" && (len(inc.l) > 0 || len(ign.l) > 0)
 	for i := range fs {
 		f := &fs[i]
 		if f.kind == "struct" || f.kind == "structs" {
@@ -1233,14 +1230,9 @@ func (e *confExec) checkStruct(where, structName string, fs []confField, o confO
 			}
 			continue
 		}
-		if kind == "reList" && listsWritten {
-			// include/ignore share one slice in applyAux: an omitted list next to a written one is
-			// an empty non-nil slice and does not inherit (hypothesis of absent_inherits_partial)
-			if e.strict {
-				e.fail("absent-not-inherited: %s %s omitted, effective %s, preceding %s (the other pattern list is written)", where, f.key, got, want)
-			}
-			continue
-		}
+		// no exception for include / ignore: since `fix: an omitted include (ignore) list was not
+		// inherited when the other list was written` an omitted (or empty) list inherits whatever
+		// the source writes for the other list (absent_inherits, absent_inherits_lists)
 		e.fail("absent-not-inherited: %s %s omitted, effective %s, expected %s", where, f.key, got, want)
 	}
 }
@@ -1334,25 +1326,15 @@ func (e *confExec) oracleParsed() {
 	}
 }
 
-// oracleReenc: theorem reencode_fixpoint_partial; its hypothesis: every explicitly set
-// error-backoff has at most six decimals (MarshalJSON prints it with %f).
+// oracleReenc: theorem reencode_fixpoint, unconditional since `fix: error-backoff lost its
+// decimals beyond the sixth when re-encoded as JSON` (MarshalJSON printed it with %f before).
 func (e *confExec) oracleReenc(a, b []*confDumpSrc) {
 	if len(a) != len(b) {
 		e.fail("reencode-changed: %d sources before, %d after", len(a), len(b))
 		return
 	}
-	hyp := true
-	for _, d := range a {
-		v := d.vals["error-backoff"]
-		if n, err := strconv.ParseInt(strings.TrimPrefix(v, "n:"), 10, 64); err == nil && d.marked["error-backoff"] && n%1000 != 0 {
-			hyp = false
-		}
-	}
 	for i := range a {
 		if a[i].full() == b[i].full() {
-			continue
-		}
-		if !hyp && !e.strict {
 			continue
 		}
 		what := "?"
@@ -1366,11 +1348,7 @@ func (e *confExec) oracleReenc(a, b []*confDumpSrc) {
 		if len(x) != len(y) && what == "?" {
 			what = fmt.Sprintf("%d fields -> %d fields", len(x), len(y))
 		}
-		tail := ""
-		if !hyp {
-			tail = " (an error-backoff with more than six decimals is set)"
-		}
-		e.fail("reencode-changed: source %d %s%s", i, what, tail)
+		e.fail("reencode-changed: source %d %s", i, what)
 	}
 }
 
@@ -1632,10 +1610,17 @@ func (confComp) Corpus() [][]string {
 		{"strict on", "source", "opt compress n:4", "target", "topt quic-enable-datagrams b:true",
 			"tag", "gopt priority n:5", "gopt order s:lifo", "tag", "gopt pattern s:x", "gopt priority n:0", "gopt order s:-",
 			"source", "opt compress n:0", "target", "topt quic-enable-datagrams b:false", "parse json 1", "eff 1", "efftgt 1", "efftag 0 1"},
-		// KNOWN FINDING C19-F7b: an omitted include list next to a written ignore list does not inherit
+		// FIXED (fix: an omitted include (ignore) list was not inherited ...): the witness of F7b, an omitted
+		// include list next to a written ignore list (and the mirror image, and an explicitly empty list,
+		// in YAML and JSON, also after re-encoding); the ordinary oracle requires the inheritance now
 		{"strict on", "source", "opt include l:%5ex", "source", "opt ignore l:z%24", "parse yaml 1", "eff 1"},
-		// KNOWN FINDING C19-F7c: error-backoff with more than six decimals changes on re-encoding
+		{"source", "opt include l:%5ex", "opt ignore l:y%24", "source", "opt ignore l:z%24", "source", "opt include l:a.b",
+			"source", "opt include l:", "opt ignore l:foo", "parse json 1", "eff 1", "eff 2", "eff 3", "reenc", "eff 1", "eff 2", "eff 3"},
+		// FIXED (fix: error-backoff lost its decimals ...): the witness of F7c, an error-backoff with more than
+		// six decimals must survive re-encoding (also inherited by a later source, also a second hand-over)
 		{"strict on", "source", "opt error-backoff n:1234567890", "parse yaml 1", "reenc", "eff 0"},
+		{"source", "opt error-backoff n:1000000499", "source", "source", "opt error-backoff n:1", "parse json 1",
+			"reenc", "eff 0", "eff 1", "eff 2", "reenc", "eff 2"},
 		// KNOWN FINDING C19-S15: tag patterns are matched against the group, not the file name
 		{"strict on", "source", "opt name s:a", "target", "topt http-host s:h", "tag", "gopt pattern s:DEFAULT", "gopt method s:http",
 			"tag", "gopt pattern s:%5c.nc%24", "gopt priority n:7", "parse yaml 1", "tagof 0 data.001.nc", "tagof 0 nc"},
